@@ -25,8 +25,10 @@ def _status_case(item):
     """-> (model line, impl tokens, failures of the property's clause decided on the recorded calls alone)"""
     from harness import pm
     name, prog, sched, status0 = item
-    # half of the cases: the class also sets its status from a state hook (on_entered), i.e. DURING transitions
-    hook = (sum(int(k) for k in sched) + len(name)) % 2 == 1
+    # a third of the cases: the class also sets its status from a state hook (on_entered), i.e. DURING transitions
+    # ... and a third keeps its status on a record of its own behind the public status / set_status pair
+    v = (sum(int(k) for k in sched) + len(name)) % 3
+    hook = True if v == 1 else 'ext' if v == 2 else False
     r = pm.run_schedule(prog, sched, status0=status0, hookstatus=hook)
     evs = list(r.p.__dict__.get('_status_ev', []))
     r.close()
